@@ -40,6 +40,9 @@ def main():
         assert rc == 0, out
         demo = re.sub(r"CARGO_TARGET_DIR=\S+\s*", "", meta["demo_command"])
         demo = re.sub(r"export\s+CARGO_NET_OFFLINE=\S+\s*;?", "", demo)
+        demo = re.sub(r"^\s*cd\s+\S+\s*&&\s*", "", demo)          # the command is run from the scratch worktree root
+        demo = re.sub(r"&&\s*&&", "&&", demo)
+        demo = re.sub(r"^\s*&&\s*", "", demo)
         # (2) existing tests with the patch
         tcmd = "cargo test --workspace --no-fail-fast --offline" if workspace else f"cargo test --offline --no-fail-fast {tests}"
         rc, out = sh(tcmd + " 2>&1 | grep -E '^test result|^test .* FAILED|error(\\[|:)' | sort | uniq -c | sort -rn | head -40", cwd=wt, env=env, timeout=7200)
